@@ -184,3 +184,230 @@ func runC07_9(c *core.Ctx) {
 		}
 	})
 }
+
+func init() {
+	register(&core.Rule{ID: "C07.10", Prop: "C07", MinSites: 3,
+		Desc: "start-up failure cleanup: an error return reached after listeners/pollers were successfully created in this function closes them first (a collected container is ranged over with close, a single object is closed directly) unless they were already handed to an owner that the caller tears down",
+		Run: runC07_10})
+}
+
+// runC07_10: owner-object typestate for *listener / *netpoll.Poller values created by initListener / OpenPoller.
+func runC07_10(c *core.Ctx) {
+	v := vocabOf(c)
+	if v == nil {
+		return
+	}
+	initListener := c.P.Func("", "initListener")
+	openPoller := c.P.Func("pkg/netpoll", "OpenPoller")
+	lnClose := c.P.Func("", "listener.close")
+	pollerClose := c.P.Func("pkg/netpoll", "Poller.Close")
+	regLB := c.P.Func("", "baseLoadBalancer.register")
+	closeLoops := c.P.Func("", "engine.closeEventLoops")
+	if !c.Need("initListener", initListener) || !c.Need("OpenPoller", openPoller) || !c.Need("listener.close", lnClose) || !c.Need("Poller.Close", pollerClose) || !c.Need("register", regLB) || !c.Need("closeEventLoops", closeLoops) {
+		return
+	}
+	for _, f := range v.funcs {
+		g := f.Graph()
+		type acq struct {
+			stmt   ast.Node
+			obj    types.Object // the created object
+			errObj types.Object
+			kind   string
+			pos    token.Pos
+		}
+		var acqs []acq
+		for _, b := range g.Blocks {
+			for _, n := range b.Nodes {
+				as, ok := n.(*ast.AssignStmt)
+				if !ok || len(as.Rhs) != 1 || len(as.Lhs) != 2 {
+					continue
+				}
+				call, ok := ast.Unparen(as.Rhs[0]).(*ast.CallExpr)
+				if !ok {
+					continue
+				}
+				kind := ""
+				switch {
+				case flow.IsCall(f.Info, call, initListener):
+					kind = "listener"
+				case flow.IsCall(f.Info, call, openPoller):
+					kind = "poller"
+				}
+				if kind == "" {
+					continue
+				}
+				acqs = append(acqs, acq{n, flow.ObjOf(f.Info, as.Lhs[0]), flow.ObjOf(f.Info, as.Lhs[1]), kind, call.Pos()})
+			}
+		}
+		for _, a := range acqs {
+			if a.obj == nil || a.errObj == nil {
+				continue
+			}
+			// containers the object is stored into, and owner objects it is attached to
+			containers := map[types.Object]bool{}
+			owners := map[types.Object]bool{}
+			ast.Inspect(f.Decl.Body, func(n ast.Node) bool {
+				as, ok := n.(*ast.AssignStmt)
+				if !ok {
+					return true
+				}
+				for k, l := range as.Lhs {
+					if len(as.Rhs) != len(as.Lhs) || flow.ObjOf(f.Info, as.Rhs[k]) != a.obj {
+						continue
+					}
+					switch x := ast.Unparen(l).(type) {
+					case *ast.IndexExpr: // listeners[i] = ln ; lns[ln.fd] = ln
+						if o := flow.ObjOf(f.Info, x.X); o != nil {
+							containers[o] = true
+						}
+					case *ast.SelectorExpr: // el.poller = p
+						if o := flow.ObjOf(f.Info, x.X); o != nil {
+							owners[o] = true
+						}
+					}
+				}
+				return true
+			})
+			// composite literal owners: el := eventloop{poller: p, …}
+			ast.Inspect(f.Decl.Body, func(n ast.Node) bool {
+				if as, ok := n.(*ast.AssignStmt); ok && len(as.Lhs) == 1 && len(as.Rhs) == 1 {
+					if cl, ok := ast.Unparen(as.Rhs[0]).(*ast.CompositeLit); ok {
+						for _, el := range cl.Elts {
+							if kv, ok := el.(*ast.KeyValueExpr); ok && flow.ObjOf(f.Info, kv.Value) == a.obj {
+								if o := flow.ObjOf(f.Info, as.Lhs[0]); o != nil {
+									owners[o] = true
+								}
+							}
+						}
+					}
+				}
+				return true
+			})
+			const (
+				sNone = iota
+				sHeld     // created, error not yet known
+				sOwned    // this function is responsible
+				sSafe     // closed, returned to the caller, or handed to a registered owner
+			)
+			closesObj := func(n ast.Node) bool {
+				for _, call := range flow.Calls(n) {
+					if (flow.IsCall(f.Info, call, lnClose) || flow.IsCall(f.Info, call, pollerClose)) && flow.ObjOf(f.Info, flow.Recv(call)) == a.obj {
+						return true
+					}
+				}
+				return false
+			}
+			closesContainer := func(n ast.Node) bool {
+				// for _, l := range <container> { l.close() } appears as a range block: look at the statement kind through the node's calls
+				found := false
+				ast.Inspect(n, func(x ast.Node) bool {
+					if rs, ok := x.(*ast.RangeStmt); ok {
+						base := ast.Unparen(rs.X)
+						if se, ok := base.(*ast.SliceExpr); ok {
+							base = ast.Unparen(se.X)
+						}
+						if o := flow.ObjOf(f.Info, base); o != nil && containers[o] {
+							for _, call := range callsIn(rs.Body, false) {
+								if flow.IsCall(f.Info, call, lnClose) || flow.IsCall(f.Info, call, pollerClose) {
+									found = true
+								}
+							}
+						}
+					}
+					return true
+				})
+				return found
+			}
+			handsOver := func(n ast.Node) bool {
+				for _, call := range flow.Calls(n) {
+					// eng.eventLoops.register(el) with el an owner
+					if cf := flow.CalleeFunc(f.Info, call); cf != nil && cf.Name() == "register" && len(call.Args) == 1 {
+						arg := ast.Unparen(call.Args[0])
+						if u, ok := arg.(*ast.UnaryExpr); ok && u.Op == token.AND {
+							arg = ast.Unparen(u.X)
+						}
+						if o := flow.ObjOf(f.Info, arg); o != nil && owners[o] {
+							return true
+						}
+					}
+					if flow.IsCall(f.Info, call, closeLoops) {
+						return true
+					}
+				}
+				if as, ok := n.(*ast.AssignStmt); ok { // eng.ingress = el
+					for k, l := range as.Lhs {
+						if fl := flow.FieldOf(f.Info, l); fl != nil && fl.Name() == "ingress" && len(as.Rhs) == len(as.Lhs) {
+							if o := flow.ObjOf(f.Info, as.Rhs[k]); o != nil && owners[o] {
+								return true
+							}
+						}
+					}
+				}
+				return false
+			}
+			// range statements are not block nodes in the CFG: collect the statements syntactically enclosing closes
+			rangeCloses := map[ast.Node]bool{}
+			ast.Inspect(f.Decl.Body, func(n ast.Node) bool {
+				if rs, ok := n.(*ast.RangeStmt); ok && closesContainer(rs) {
+					rangeCloses[rs.X] = true // the range expression is a CFG node
+				}
+				return true
+			})
+			au := &flow.Auto{Start: sNone}
+			au.Node = func(b *flow.Block, i int, n ast.Node, s int) int {
+				if n == a.stmt {
+					return sHeld
+				}
+				if s == sOwned || s == sHeld {
+					if closesObj(n) || handsOver(n) {
+						return sSafe
+					}
+					if e, ok := n.(ast.Expr); ok && rangeCloses[e] {
+						return sSafe
+					}
+				}
+				return s
+			}
+			au.Edge = func(e *flow.Edge, s int) int {
+				if s == sHeld && e.Cond != nil && e.Tag == nil {
+					if x, y, op, ok := flow.Cmp(e.Cond); ok && flow.IsNil(f.Info, y) && flow.ObjOf(f.Info, x) == a.errObj {
+						if (op == token.NEQ) == e.Sense {
+							return sNone // creation failed: nothing to close
+						}
+						return sOwned
+					}
+				}
+				return s
+			}
+			sol := g.Run(au)
+			bad := token.NoPos
+			sol.AtExit(func(b *flow.Block, _ uint64) {
+				st := sol.Out(b)
+				if st&(1<<sOwned) == 0 {
+					return
+				}
+				r := b.Return
+				// success returns hand the object (or its container/owner) to the caller: last result nil
+				isErrRet := false
+				for _, res := range r.Results {
+					if isErrorType(f.Info.TypeOf(res)) && !flow.IsNil(f.Info, res) {
+						isErrRet = true
+					}
+				}
+				if isErrRet && bad == token.NoPos {
+					bad = r.Pos()
+				}
+			})
+			construct := a.kind + " created by " + map[string]string{"listener": "initListener", "poller": "OpenPoller"}[a.kind] + " is cleaned up on later failures"
+			if bad == token.NoPos {
+				c.Ok(f.Name, construct, a.pos, "closed, handed over or returned on every path")
+			} else {
+				what := "the " + a.kind + " created here"
+				if len(containers) > 0 {
+					what = "the " + a.kind + "s collected so far"
+				}
+				c.Violate(f.Name, construct, bad, "an error return is reachable while "+what+" is neither closed nor handed to an owner the caller tears down: descriptors (and unix socket files) created before the failure leak when Run/Rotate returns the error")
+			}
+		}
+	}
+}
